@@ -403,6 +403,69 @@ pub fn run(ck: &mut Check) {
         },
         oracle,
     );
+    // the multi-signer situations get a generator of their own (they are < 1% of G1): restricted
+    // joins authorised by a user of another server (v8-11), events whose id names another server
+    // (v1-2), third-party invites - each with every attack on every required signer
+    let n2 = ck.n(20_000, 400_000);
+    ck.prop(
+        "multi_signer_attacks",
+        n2,
+        move || {
+            let attack = prop_oneof![
+                1 => Just(Post::None),
+                3 => any::<u16>().prop_map(Post::DropRequiredSignature),
+                3 => (any::<u16>(), any::<u16>()).prop_map(|(a, b)| Post::CorruptRequiredSignature(a, b)),
+                2 => any::<u16>().prop_map(Post::DropRequiredKey),
+                2 => any::<u16>().prop_map(Post::WrongKeyForRequired),
+                2 => (0u8..2).prop_map(Post::Redact),
+            ];
+            (pdu::pdu(), any::<[[u8; 32]; 3]>(), 0u8..3, "[A-Za-z0-9_]{1,6}", attack, 0u8..3, (1u8..=11, 0usize..3, 1usize..3, 0u8..3, any::<bool>())).prop_map(|(mut pdu, seeds, der_form, key_version, post, two_keys, (version, sender_srv, other_off, shape, flag))| {
+                let e = &mut pdu.event;
+                let sender = pdu::user(sender_srv, 1);
+                let other = pdu::user(sender_srv + other_off, 2);
+                e.insert("type".into(), V::Str("m.room.member".into()));
+                e.insert("sender".into(), V::Str(sender.clone()));
+                let mut content = BTreeMap::new();
+                match shape {
+                    // restricted join authorised via a user of another server
+                    0 => {
+                        pdu.version = 8 + version % 4;
+                        content.insert("membership".to_owned(), V::Str("join".into()));
+                        content.insert("join_authorised_via_users_server".to_owned(), V::Str(other.clone()));
+                        e.insert("state_key".into(), V::Str(sender.clone()));
+                    }
+                    // invite created from a third-party invite
+                    1 => {
+                        pdu.version = version;
+                        content.insert("membership".to_owned(), V::Str("invite".into()));
+                        let mut t = BTreeMap::new();
+                        t.insert("display_name".to_owned(), V::Str("d".into()));
+                        t.insert("signed".to_owned(), V::Obj([("mxid".to_owned(), V::Str(other.clone())), ("token".to_owned(), V::Str("tok".into())), ("signatures".to_owned(), V::Obj(BTreeMap::new()))].into_iter().collect()));
+                        content.insert("third_party_invite".to_owned(), V::Obj(t));
+                        e.insert("state_key".into(), V::Str(other.clone()));
+                    }
+                    // v1-2: event id on another server than the sender's
+                    _ => {
+                        pdu.version = 1 + version % 2;
+                        content.insert("membership".to_owned(), V::Str(if flag { "join" } else { "leave" }.into()));
+                        e.insert("state_key".into(), V::Str(sender.clone()));
+                        e.insert("event_id".into(), V::Str(format!("$abc:{}", pdu::SERVERS[(sender_srv + other_off) % 3])));
+                    }
+                }
+                if pdu.version >= 3 {
+                    e.remove("event_id");
+                } else if shape != 2 {
+                    e.insert("event_id".into(), V::Str(format!("$own:{}", pdu::SERVERS[sender_srv % 3])));
+                }
+                e.insert("content".into(), V::Obj(content));
+                EventCase { pdu, seeds, der_form, key_version, extra_signer: flag, extra_key_known: !flag, post, prior: 0, two_keys }
+            })
+        },
+        oracle,
+    );
+    for cls in ["restricted_join_authoriser", "third_party_invite_no_sender_signature", "multi_signer_requirement", "required_signature_missing", "required_signature_corrupt", "required_key_missing", "required_key_wrong", "v1-2", "v8-10", "v11"] {
+        ck.floor("multi_signer_attacks", cls, 300);
+    }
     for cls in ["v1-2", "v3-7", "v8-10", "v11", "multi_signer_requirement", "third_party_invite_no_sender_signature", "restricted_join_authoriser", "mut_kept_field", "mut_stripped_hashed_field", "mut_unsigned_only", "required_signature_missing", "redacted_copy_hash_invalid", "redacted_copy_hash_still_valid", "extra_signature_without_key", "event_carried_hashes_before_signing", "rehash_and_resign_after_edit", "second_key_id_sorts_first", "second_key_id_sorts_last", "required_signature_corrupt"] {
         ck.floor("sign_verify_events", cls, 50);
     }
